@@ -530,6 +530,8 @@ def _check_design_rebuilt(prog: Program, res: Result):
 STALE_ACCEPT = {
     ("BaseGHE", "self.gFunction"): "the rebuild uses the object's own coordinates (R13.1 rebuild-passthrough), so nbh and the per-borehole flow stay valid",
     ("BaseGHE", "self.bhe_eq"): "radial_numerical is told about the new equivalent tube by calc_sts_g_functions(self.bhe_eq) right after (partial_init)",
+    ("GHE", "self.bhe_eq", "self.hybrid_load"): "the hybrid loads are built once per object from the constructor's equivalent tube and deliberately not refreshed (comment in grab_g_function: "
+                                                  "'Don't update the HybridLoad ... it doesn't change the results much'): they depend on the constructor's inputs only, so no simulate / size history enters",
     ("RadialNumericalBH", "self.single_u_tube"): "the mesh geometry of the first tube is kept on purpose - stale but self-consistent (DESIGN 10.5); C10 R10.9 guards half-refreshes",
 }
 
@@ -554,6 +556,17 @@ def _check_stale_and_memo(prog: Program, res: Result):
         for cls_, m, st_, y, x, how, dstmt in bad:
             groups.setdefault((c.name, y), []).append((cls_, m, st_, x, how, dstmt))
         for (cn, y), items in sorted(groups.items()):
+            # dependences accepted one by one (class, replaced attribute, derived attribute) come off first
+            kept = []
+            for it in items:
+                a3 = STALE_ACCEPT.get((cn, y, it[3]))
+                if a3:
+                    res.ob("R13.10", f"{cn}: {y} is replaced by {it[1].name} without recomputing {it[3][5:]} - accepted: {a3[:110]}", True, prog.loc(it[1], it[2]))
+                else:
+                    kept.append(it)
+            items = kept
+            if not items:
+                continue
             acc = STALE_ACCEPT.get((cn, y))
             if acc and (cn, y) == ("BaseGHE", "self.bhe_eq"):
                 # the reason given is itself checked: each method that replaces the tube hands it to the short-time model afterwards
